@@ -169,8 +169,26 @@ def rn2(prog, rr):
                 kind[id(n)] = "solve"
             elif nm == "rollback":
                 kind[id(n)] = "rollback"
-    for k in ("used_rand", "pre", "post", "bounds", "rewrite", "randinfo", "solve", "rollback"):
-        rr.require(any(v == k for v in kind.values()), "do_randomize: phase '%s' not found" % k)
+    callee = {"used_rand": "set_used_rand", "pre": "pre_randomize", "post": "post_randomize", "bounds": "process", "rewrite": "build",
+              "randinfo": "build", "solve": "randomize", "rollback": "rollback"}
+    missing = [k for k in ("used_rand", "pre", "post", "bounds", "rewrite", "randinfo", "solve", "rollback") if not any(v == k for v in kind.values())]
+    if missing:
+        # a phase moved into a helper (still reachable from do_randomize) is a shape this rule cannot follow: analysis error.
+        # a phase whose call is reachable from nowhere below do_randomize has been dropped: that is a violation.
+        reach = cg.reach_ctx([(dr, None)]) if hasattr(cg, "reach_ctx") else set()
+        for k in sorted(set(kind.values())):
+            rr.inst("phase %s: %d call site(s)" % (k, sum(1 for v in kind.values() if v == k)))
+        for k in missing:
+            elsewhere = [g for g in reach if g is not dr and any(isinstance(c, ast.Call) and call_name(c) == callee[k] for c in walk_local(g.node))]
+            if k in ("pre", "rollback", "used_rand") and not any(g.cls is not None and g.cls.name == "Randomizer" for g in elsewhere):
+                rr.inst("phase %s: no call site" % k)
+                rr.finding(dr, dr.node, "Randomizer.do_randomize", "RN2: do_randomize never performs phase '%s' (%s is called neither here nor in a helper "
+                           "of the Randomizer)%s" % (k, callee[k], {"rollback": ": the per-call foreach/dist rewrites stay installed in the object's "
+                           "constraint tree and later calls solve a stale expansion", "pre": ": pre_randomize callbacks never run",
+                           "used_rand": ": used-as-random flags keep the values of an earlier call"}[k]), text="phase %s dropped" % k)
+            else:
+                rr.require(False, "do_randomize: phase '%s' not found" % k)
+        return
     for k in ("pre", "post", "solve", "randinfo"):
         n_sites = sum(1 for v in kind.values() if v == k)
         rr.inst("phase %s: %d call site(s)" % (k, n_sites))
@@ -644,4 +662,8 @@ def _guards(fnode, node):
         if isinstance(p, ast.If) and any(n is x for x in p.body):
             out.append(norm(p.test))
         n = p
+    from sa.ir import guard_facts
+    for f in guard_facts(fnode, node, with_raise=False):
+        if f not in out:
+            out.append(f)
     return out
